@@ -145,8 +145,9 @@ def kw_case(c, d):
     if proj.exists():
         shutil.rmtree(proj)
     proj.mkdir()
-    params, shown, decos, kwitems = [], [], [], []
-    order = {"kwargs": 0, "typed_kwargs": 0, "python": 1, "python_nohash": 1, "path_default": 2, "mixed_default": 2, "typed_default": 2}
+    params, shown, decos, kwitems, pre = [], [], [], [], []
+    order = {"kwargs": 0, "typed_kwargs": 0, "python": 1, "python_nohash": 1, "handover": 1, "handover_init": 1,
+             "path_default": 2, "mixed_default": 2, "typed_default": 2, "handover_mixed_default": 2}
     for name, form, t in sorted(c["args"], key=lambda a: order[a[1]]):
         if form == "python":          # Annotated PythonNode values in nested containers
             params.append(f"{name}: Annotated[Any, {src(t, lambda i: f'V({i})')}]")
@@ -167,13 +168,27 @@ def kw_case(c, d):
             else:
                 kwitems.append(f"{name!r}: {lit}")
                 params.append(f"{name}")
+        elif form in ("handover", "handover_init", "handover_mixed_default"):
+            # values handed over in memory: every node is the return product of a task of its own; the consumer
+            # receives, at the declared positions, what the producers returned
+            mixed = form == "handover_mixed_default"
+            for i in leaves_of(t):
+                if mixed and i % 2 == 0:
+                    continue
+                init = ", value=0" if form == "handover_init" else ""
+                pre.append(f"H{i} = PythonNode(name='h{i}'{init})")
+                pre.append(f"def task_p{i}() -> Annotated[int, H{i}]:\n    return {i}\n")
+            if mixed:
+                params.append(f"{name}: Any = {src(t, lambda i: f'H{i}' if i % 2 else str(i))}")
+            else:
+                params.append(f"{name}: Annotated[Any, {src(t, lambda i: f'H{i}')}]")
         elif form == "kwargs":        # @task(kwargs={name: value})
             kwitems.append(f"{name!r}: {src(t, lambda i: f'V({i})')}")
             params.append(f"{name}")
         shown.append(f"{name!r}: show({name})")
     if kwitems:      # one decorator for all keyword arguments given through @task(kwargs=...)
         decos.append("@task(kwargs={" + ", ".join(kwitems) + "})")
-    (proj / "task_k.py").write_text(KW_PROGRAM.format(decos="\n".join(decos), params=", ".join(params), shown=", ".join(shown)))
+    (proj / "task_k.py").write_text(KW_PROGRAM.format(decos="\n".join(pre + decos), params=", ".join(params), shown=", ".join(shown)))
     r = run_build(proj)
     f = proj / "kw.json"
     r["kwargs"] = json.loads(f.read_text()) if f.exists() else None
